@@ -200,6 +200,43 @@ class Scen:
             self.n += 1; self.stmts.append('let q%d = %s.%s;' % (self.n, f, call))
             self.emit('%s.client_segment("after")' % f, [dict(base, **c2s)])
             self.emit('%s.server_segment("after")' % f, [dict(base, **s2c)])
+    def fanout(self):
+        """several flows that share an end point (one source to several destinations: a ping sweep, a resolver's clients) and flows
+        of different protocols between the SAME two addresses, used in turn: every packet belongs to the flow it was asked of"""
+        r = self.r
+        base = dict(id=0, ttl=64, off=0, evil=False, df=False, mf=False, eth='ip')
+        h = addr(r); targets = [addr(r) for _ in range(3)]
+        flows = []
+        for t in targets:
+            self.n += 1; f = 'i%d' % self.n
+            self.decl.append('let %s = ipv4::icmp::flow(%s, %s%s);' % (f, ip(h), ip(t), self.rawarg()))
+            flows.append([f, t, 0, 0])
+        for k in range(9):
+            fl = flows[[0, 1, 2, 2, 0, 1, 1, 0, 2][k]]
+            b = payload(r, [0, 1, 8, 9])
+            if k % 4 == 3:
+                self.emit('%s.echo_reply(%s)' % (fl[0], lit(b)), [dict(base, src=fl[1], dst=h, proto=1, l4=('icmp', 0, 0x1234, fl[3]), plen=len(b))]); fl[3] += 1
+            else:
+                self.emit('%s.echo(%s)' % (fl[0], lit(b)), [dict(base, src=h, dst=fl[1], proto=1, l4=('icmp', 8, 0x1234, fl[2]), plen=len(b))]); fl[2] += 1
+        # one pair of hosts, three transports
+        a, b_ = addr(r), addr(r)
+        self.n += 1; t = 't%d' % self.n; u = 'u%d' % self.n; ic = 'j%d' % self.n
+        pa, pb = r.below(65536), r.below(65536)
+        self.decl.append('let %s = ipv4::tcp::flow(%s:%d, %s:%d%s);' % (t, ip(a), pa, ip(b_), pb, self.rawarg()))
+        self.decl.append('let %s = ipv4::udp::flow(%s:%d, %s:%d%s);' % (u, ip(a), pa, ip(b_), pb, self.rawarg()))
+        self.decl.append('let %s = ipv4::icmp::flow(%s, %s%s);' % (ic, ip(a), ip(b_), self.rawarg()))
+        c2s = dict(src=a, dst=b_); s2c = dict(src=b_, dst=a)
+        T = dict(base, proto=6, l4='tcp'); U = dict(base, proto=17, l4=('udp', True))
+        seq = 0
+        for k in range(4):
+            x = payload(r, [0, 1, 8, 9])
+            self.emit('%s.client_dgram(%s)' % (u, lit(x)), [dict(U, sport=pa, dport=pb, plen=len(x), **c2s)])
+            self.emit('%s.client_message(%s)' % (t, lit(x)), [dict(T, **c2s), dict(T, **s2c)])
+            self.emit('%s.server_dgram(%s)' % (u, lit(x)), [dict(U, sport=pb, dport=pa, plen=len(x), **s2c)])
+            self.emit('%s.echo(%s)' % (ic, lit(x)), [dict(base, proto=1, l4=('icmp', 8, 0x1234, seq), plen=len(x), **c2s)]); seq += 1
+            self.emit('%s.server_message(%s)' % (t, lit(x)), [dict(T, **s2c), dict(T, **c2s)])
+            if k == 1:
+                self.emit('dns::host(%s, "a.example", ns: %s%s, 10.0.0.1)' % (ip(a), ip(b_), self.rawarg()), [dict(U, sport=32768, dport=53, **c2s), dict(U, sport=53, dport=32768, **s2c)])
     def drop_empty(self, stmt):
         """an empty payload may also be given by passing no payload argument at all"""
         if '.echo' in stmt or not self.r.chance(1, 2): return stmt
@@ -351,6 +388,7 @@ def build(r, raw, kinds=None, quick=True):
         else: s.tcp(96)
         del SWEEP[:]
     elif k == 'opt-grid': s.optgrid()
+    elif k == 'fan-out': s.fanout()
     elif k == 'non-emitting': s.nonemit()
     elif k == 'addr-sum-tcp': s.addrsum(6)
     elif k == 'addr-sum-udp': s.addrsum(17)
